@@ -199,7 +199,7 @@ int main(int argc, char **argv)
     long_addresses();
     bfs::Engine<Sys> E;
     const bool T = vp::thorough();
-    E.max_depth = T ? 7 : 5;
+    E.max_depth = T ? 8 : 5;
     // start from non-initial states: k non-mergeable records, then seek back j steps
     int root_depth = T ? 5 : 3;
     for(int k : {17, 19, 20, 21}) {
